@@ -1031,4 +1031,275 @@ theorem start_eq_firstOf (b : Builder) (ids : List ItemId) (cur : Option Nat) (e
 theorem kids_length_le (nodes : List FNode) (ids : List ItemId) (p : Option Nat) (hl : ids.length = nodes.length) :
     (kids nodes ids p).length ≤ ids.length := (kids_sublist nodes ids p hl).length_le
 
+theorem kids_none_of_ge (s : SpecSt) (ids : List ItemId) (hi : Inv s) (j : Nat) (hj : s.nodes.length ≤ j) :
+    kids s.nodes ids (some j) = [] := by
+  unfold kids
+  rw [List.map_eq_nil_iff]
+  apply List.eq_nil_iff_forall_not_mem.mpr
+  intro i hi'
+  obtain ⟨h1, h2⟩ := childrenOf_lt _ _ _ hi'
+  have hn : s.nodes[i]? = some (s.nodes.getD i default) := by
+    simp [List.getD_eq_getElem?_getD, List.getElem?_eq_getElem h1]
+  have := (hi.parents i _ hn j h2).1
+  omega
+
+/-- declaring a scope that does not exist yet (and is not dissolved) -/
+theorem step_scope_new_rel (b : Builder) (s : SpecSt) (ids : List ItemId) (name : String) (hr : Rel b s ids)
+    (hinv : Inv { nodes := s.nodes ++ [{ isScope := true, name := name, parent := curParent s.stack }],
+                  stack := .scope s.nodes.length :: s.stack }) :
+    let node := ItemId.scope b.scopes.size
+    let b0 : Builder := if b.firstItem.isNone then { b with firstItem := some node } else b
+    ∃ b1 par, addToTree b0 node = some (b1, par) ∧
+      Rel { b1 with stack := { scopeId := some b.scopes.size } :: b1.stack,
+                    scopes := b1.scopes.push { name := name, parent := par } }
+        { nodes := s.nodes ++ [{ isScope := true, name := name, parent := curParent s.stack }],
+          stack := .scope s.nodes.length :: s.stack }
+        (ids ++ [.scope b.scopes.size]) := by
+  intro node b0
+  obtain ⟨pos, e, b1, hfp, hadd, hpar, hstk, hvs, hss, hhn, hnext, hfirst, hsf, hvf⟩ :=
+    addToTree_obs b s ids (.scope b.scopes.size) hr
+  refine ⟨b1, e.scopeId, hadd, ?_⟩
+  have hopen := open_lt s hr.inv
+  apply rel_add b _ s ids _ (.scope b.scopes.size) _ hr rfl (fresh_scope b s ids hr) ?_ ?_ hinv ?_ ?_
+  · refine ⟨?_, ?_, ?_, ?_⟩
+    · intro y
+      rw [getNext_push_scope b1 _ _ y, hss, hnext y]
+    · intro p
+      rw [← hfirst p]
+      refine firstOf_snoc b1 _ ids (.scope b.scopes.size) ?_ ?_ ?_ p
+      · rfl
+      · intro j k hjk
+        have hk : k < b1.scopes.size := by
+          rw [hss]; exact rel_valid b s ids hr (.scope k) (List.mem_of_getElem? hjk)
+        simp [Array.getElem?_push, Nat.ne_of_lt hk]
+      · intro k hk
+        cases hk
+        simp [← hss]
+    · intro n y _ hn
+      apply nodeRel_mono b _ ids _ n y ?_ ?_ hn
+      · intro k hk
+        have hk1 : k < b1.scopes.size := by omega
+        have hg : (b1.scopes.push { name := name, parent := e.scopeId : ScopeN }).getD k default = b1.scopes.getD k default := by
+          simp [Array.getElem?_push, Nat.ne_of_lt hk1]
+        exact ⟨by simp; omega, by rw [hg]; exact (hsf k).1, by rw [hg]; exact (hsf k).2⟩
+      · intro k hk
+        exact ⟨by simpa [hvs] using hk, (hvf k).1, (hvf k).2.1, (hvf k).2.2⟩
+    · simp; omega
+  · refine ⟨rfl, by simp; omega, ?_, ?_⟩
+    · simp [← hss]
+    · simp only [← hss, Array.getD_eq_getD_getElem?, Array.getElem?_push_size, Option.getD_some]
+      exact parentRel_snoc _ _ _ _ hpar
+  · -- the stack: the new entry on top of the updated old stack
+    refine ⟨_, _, b.scopes.size, rfl, ?_, rfl, rfl, ?_, ?_⟩
+    · rw [← hr.len]; simp
+    · show none = lastOf _ _ _
+      unfold lastOf
+      rw [kids_snoc _ _ _ _ _ hr.len, kids_none_of_ge s ids hr.inv _ (Nat.le_refl _)]
+      have : ((curParent s.stack) == some s.nodes.length) = false := by
+        cases hc : curParent s.stack with
+        | none => rfl
+        | some j =>
+          have := hopen j (curParent_mem _ _ hc)
+          simp; omega
+      simp [this]
+    · rw [hstk]
+      exact stack_update s.nodes ids _ _ hr.len s.stack b.stack pos e hr.stack hr.desc hopen rfl hfp
+  · exact ⟨fun j' hj' => hopen j' hj', hr.desc⟩
+
+/-! ### operations that only change the stack -/
+
+theorem nodeRel_congr (b b' : Builder) (ids : List ItemId) (n : FNode) (y : ItemId)
+    (hv : b'.vars = b.vars) (hs : b'.scopes = b.scopes) (h : NodeRel b ids n y) : NodeRel b' ids n y := by
+  cases y <;> simpa [NodeRel, hv, hs] using h
+
+theorem firstOf_congr (b b' : Builder) (ids : List ItemId) (hs : b'.scopes = b.scopes) (hf : b'.firstItem = b.firstItem)
+    (p : Option Nat) : firstOf b' ids p = firstOf b ids p := by
+  cases p with
+  | none => exact hf
+  | some j => simp only [firstOf, hs]
+
+theorem rel_restack (b b' : Builder) (s : SpecSt) (ids : List ItemId) (st' : List SEntry) (hr : Rel b s ids)
+    (hv : b'.vars = b.vars) (hs : b'.scopes = b.scopes) (hf : b'.firstItem = b.firstItem)
+    (hst : StackRel s.nodes ids st' b'.stack) (hd : Desc st') (hinv : Inv { s with stack := st' }) :
+    Rel b' { s with stack := st' } ids := by
+  refine ⟨hr.len, by rw [hv, hs]; exact hr.cnt, hr.nodup, ?_, ?_, hst, hd, hinv⟩
+  · intro i n x hn hx
+    exact nodeRel_congr b b' ids n x hv hs (hr.node i n x hn hx)
+  · intro p
+    rw [firstOf_congr b b' ids hs hf p]
+    exact (hr.chain p).congr (fun x _ => getNext_congr_arrays b b' hv hs x)
+
+/-- every operation of a balanced history: the builder does not panic and keeps representing the specification -/
+theorem rel_step (b : Builder) (s s' : SpecSt) (ids : List ItemId) (op : Op) (hr : Rel b s ids)
+    (hs : specStep s op = some s') : ∃ b' ids', step b op = some b' ∧ Rel b' s' ids' := by
+  have hinv' := inv_step s s' op hr.inv hs
+  cases op with
+  | pop =>
+    simp only [specStep] at hs
+    cases hst : s.stack with
+    | nil => rw [hst] at hs; cases hs
+    | cons en rest =>
+      rw [hst] at hs
+      simp at hs; subst hs
+      have hsr := hr.stack
+      rw [hst] at hsr
+      have hdesc := hr.desc
+      rw [hst] at hdesc
+      have hd : Desc rest := by cases en with | flat => exact hdesc | scope j => exact hdesc.2
+      cases en with
+      | flat =>
+        obtain ⟨e, br, h1, _, _, h4⟩ := hsr
+        refine ⟨{ b with stack := br }, ids, by simp [step, h1], ?_⟩
+        exact rel_restack b { b with stack := br } s ids rest hr rfl rfl rfl h4 hd hinv'
+      | scope j =>
+        obtain ⟨e, br, k, h1, _, _, _, _, h6⟩ := hsr
+        refine ⟨{ b with stack := br }, ids, by simp [step, h1], ?_⟩
+        exact rel_restack b { b with stack := br } s ids rest hr rfl rfl rfl h6 hd hinv'
+  | var name sig =>
+    obtain ⟨b', h1, h2⟩ := step_var_rel b s ids name sig hr
+    simp only [specStep, Option.some.injEq] at hs
+    subst hs
+    exact ⟨b', _, h1, h2⟩
+  | scope name fl =>
+    obtain ⟨pos, e, hfp, hfl, hlast, hpar⟩ := findParent_rel s.nodes ids s.stack b.stack hr.stack
+    have hstart := start_eq_firstOf b ids (curParent s.stack) e hpar
+    have hstepEq : ∀ r : Option Builder,
+        (match findDup b name (nodeCount b + 1) (firstOf b ids (curParent s.stack)) with
+          | some dup => some { b with stack := { scopeId := some dup, lastChild := ((b.scopes.getD dup default).child).map (findLast b (nodeCount b + 1)) } :: b.stack }
+          | none =>
+            if fl then some { b with stack := { scopeId := none, flattened := true } :: b.stack }
+            else
+              match addToTree (if b.firstItem.isNone then { b with firstItem := some (ItemId.scope b.scopes.size) } else b) (ItemId.scope b.scopes.size) with
+              | none => none
+              | some (b1, parent) =>
+                some { b1 with stack := { scopeId := some b.scopes.size } :: b1.stack,
+                               scopes := b1.scopes.push { name := name, parent := parent } }) = r →
+        step b (.scope name fl) = r := by
+      intro r hr'
+      rw [← hr', ← hstart]
+      simp only [step, hfp]
+      cases e.scopeId <;> rfl
+    have hL : ∀ i ∈ childrenOf s.nodes (curParent s.stack), i < s.nodes.length :=
+      fun i hi => (childrenOf_lt _ _ _ hi).1
+    have hfuel : (childrenOf s.nodes (curParent s.stack)).length < nodeCount b + 1 := by
+      have := kids_length_le s.nodes ids (curParent s.stack) hr.len
+      simp only [kids, List.length_map] at this
+      have := hr.cnt; have := hr.len
+      simp only [nodeCount]; omega
+    have hdup := findDup_kids b s ids name hr (childrenOf s.nodes (curParent s.stack))
+      (firstOf b ids (curParent s.stack)) (nodeCount b + 1) hL (hr.chain _) hfuel
+    simp only [specStep, spec_find_children] at hs
+    cases hfind : (childrenOf s.nodes (curParent s.stack)).find?
+        (fun i => (s.nodes.getD i default).isScope && (s.nodes.getD i default).name == name) with
+    | some j =>
+      -- the scope exists: continue it
+      rw [hfind] at hs hdup
+      simp at hs; subst hs
+      have hjm := List.mem_of_find?_eq_some hfind
+      have hjq := List.find?_some hfind
+      obtain ⟨hjlt, hjpar⟩ := childrenOf_lt _ _ _ hjm
+      have hn : s.nodes[j]? = some (s.nodes.getD j default) := by
+        simp [List.getD_eq_getElem?_getD, List.getElem?_eq_getElem hjlt]
+      have hidj := idAt_eq ids j (by rw [hr.len]; exact hjlt)
+      have hnr := hr.node j _ _ hn hidj
+      have hsc : (s.nodes.getD j default).isScope = true := by
+        simp only [Bool.and_eq_true] at hjq; exact hjq.1
+      cases hx : idAt ids j with
+      | var k => rw [hx] at hnr; rw [hnr.1] at hsc; cases hsc
+      | scope k =>
+        rw [hx] at hidj
+        simp only [Option.bind_some, hx, scopeIdx] at hdup
+        have hchild : (b.scopes.getD k default).child = firstOf b ids (some j) := (firstOf_scope b ids j k hidj).symm
+        have hchain := hr.chain (some j)
+        rw [← hchild] at hchain
+        have hlastc : ((b.scopes.getD k default).child).map (findLast b (nodeCount b + 1)) = lastOf s.nodes ids (some j) := by
+          unfold lastOf
+          cases hk : kids s.nodes ids (some j) with
+          | nil => rw [hk] at hchain; rw [hchain.nil_start]; rfl
+          | cons c l =>
+            rw [hk] at hchain
+            rw [hchain.head]
+            simp only [Option.map_some]
+            have hlen := kids_length_le s.nodes ids (some j) hr.len
+            rw [hk] at hlen
+            have := hr.cnt; have := hr.len
+            rw [hchain.head] at hchain
+            exact findLast_chain b l c (nodeCount b + 1) hchain (by simp only [nodeCount]; simp at hlen; omega)
+        refine ⟨{ b with stack := { scopeId := some k, lastChild := ((b.scopes.getD k default).child).map (findLast b (nodeCount b + 1)) } :: b.stack },
+          ids, ?_, ?_⟩
+        · apply hstepEq
+          simp only [hdup]
+        · refine rel_restack b { b with stack := { scopeId := some k, lastChild := ((b.scopes.getD k default).child).map (findLast b (nodeCount b + 1)) } :: b.stack } s ids _ hr rfl rfl rfl ?_ ?_ hinv'
+          · exact ⟨_, _, k, rfl, hidj, rfl, rfl, hlastc, hr.stack⟩
+          · refine ⟨?_, hr.desc⟩
+            intro j' hj'
+            obtain ⟨ht1, ht2⟩ := desc_top s.stack hr.desc
+            cases hc : curParent s.stack with
+            | none => exact absurd hj' (ht2 hc j')
+            | some j1 =>
+              have h1 := ht1 j1 hc j' hj'
+              rw [hc] at hjpar
+              have := (hr.inv.parents j _ hn j1 hjpar).1
+              omega
+    | none =>
+      rw [hfind] at hs hdup
+      simp only [Option.bind_none] at hdup
+      by_cases hflat : fl = true
+      · -- dissolved scope
+        simp [hflat] at hs; subst hs
+        refine ⟨{ b with stack := { scopeId := none, flattened := true } :: b.stack }, ids, ?_, ?_⟩
+        · apply hstepEq
+          simp only [hdup, hflat, if_true]
+        · refine rel_restack b { b with stack := { scopeId := none, flattened := true } :: b.stack } s ids _ hr rfl rfl rfl ?_ hr.desc hinv'
+          exact ⟨_, _, rfl, rfl, rfl, hr.stack⟩
+      · simp [hflat] at hs; subst hs
+        obtain ⟨b1, par, hadd, hrel⟩ := step_scope_new_rel b s ids name hr hinv'
+        refine ⟨_, _, ?_, hrel⟩
+        apply hstepEq
+        simp only [hdup, hflat, Bool.false_eq_true, if_false, hadd]
+
+/-! ### whole histories -/
+
+theorem rel_init : Rel {} {} [] := by
+  refine ⟨rfl, rfl, List.nodup_nil, ?_, ?_, ?_, trivial, inv_init⟩
+  · intro i n x hn _; simp at hn
+  · intro p
+    have hk : kids ([] : List FNode) [] p = [] := by simp [kids, childrenOf]
+    rw [hk]
+    cases p with
+    | none => exact .nil
+    | some j => simp only [firstOf, List.getElem?_nil]; exact .nil
+  · exact ⟨_, rfl, rfl, rfl, by simp [lastOf, kids, childrenOf]⟩
+
+theorem foldl_none_spec (l : List Op) :
+    l.foldl (fun acc op => acc.bind (fun s => specStep s op)) (none : Option SpecSt) = none := by
+  induction l with
+  | nil => rfl
+  | cons a r ih => simpa using ih
+
+theorem rel_run (ops : List Op) : ∀ (b : Builder) (s s' : SpecSt) (ids : List ItemId), Rel b s ids →
+    ops.foldl (fun acc op => acc.bind (fun s => specStep s op)) (some s) = some s' →
+    ∃ b' ids', ops.foldl (fun acc op => acc.bind (fun b => step b op)) (some b) = some b' ∧ Rel b' s' ids' := by
+  induction ops with
+  | nil => intro b s s' ids hr h; simp at h; subst h; exact ⟨b, ids, rfl, hr⟩
+  | cons op rest ih =>
+    intro b s s' ids hr h
+    simp only [List.foldl_cons, Option.bind_some] at h ⊢
+    cases hs : specStep s op with
+    | none => rw [hs, foldl_none_spec] at h; cases h
+    | some s1 =>
+      rw [hs] at h
+      obtain ⟨b1, ids1, hb1, hr1⟩ := rel_step b s s1 ids op hr hs
+      rw [hb1]
+      exact ih b1 s1 s' ids1 hr1 h
+
+/-- the item iterator over the children of `p` yields exactly the specification's children, in declaration order -/
+theorem items_eq_kids (b : Builder) (s : SpecSt) (ids : List ItemId) (hr : Rel b s ids) (p : Option Nat) :
+    itemsOf b (firstOf b ids p) = kids s.nodes ids p := by
+  unfold itemsOf
+  apply iterItems_chain b (hr.chain p)
+  have := kids_length_le s.nodes ids p hr.len
+  have := hr.cnt; have := hr.len
+  simp only [nodeCount]; omega
+
 end Wellen.Hier
